@@ -48,11 +48,16 @@ def write_tables(ctx, hdr):
     return p
 
 
-def script_text(sid, b):
+# every behaviour is run in a fresh state (0) and again after each adversarial prelude: the result must be the same
+PRELUDES = ["fresh", "errno=ERANGE", "errno=EINTR", "errno=EAGAIN", "earlier-refused-parse"]
+NP = len(PRELUDES)
+
+
+def script_text(sid, b, prelude=0):
     st = sum(SETBITS[s] for s in b["st"])
-    lines = ["S %d" % sid, "parse %d %d %s %s = ? ?" % (b["tb"], st, tok(b["argv"]), tok(bool(b["re"]) or not b["strict"]))]
+    lines = ["S %d" % sid, "parse %d %d %s %s %d = ? ?" % (b["tb"], st, tok(b["argv"]), tok(bool(b["re"]) or not b["strict"]), prelude)]
     if "PRE" in b["st"]:
-        lines.append("parse %d -1 - F = ? ?" % b["tb"])
+        lines.append("parse %d -1 - F %d = ? ?" % (b["tb"], prelude))
     lines.append("E")
     return "\n".join(lines) + "\n"
 
@@ -117,6 +122,17 @@ def compare(hdr, b, pi, got):
     return out
 
 
+def show_argv(argv):
+    """Words of a vector for keys and messages; long words and long vectors abbreviated (deterministically)."""
+    ws = []
+    for w in argv:
+        t = text(w).replace(" ", "_")
+        ws.append(t if len(t) <= 24 else "%s..(%d_chars)" % (t[:10], len(t)))
+    if len(ws) > 8:
+        ws = ws[:3] + ["..(%d_words)" % len(ws)]
+    return "[%s]" % ",".join(ws)
+
+
 def bkey(b):
     return (b["tb"], "+".join(sorted(b["st"])), tuple(tuple(w) for w in b["argv"]))
 
@@ -162,11 +178,12 @@ def run_cfg(ctx, exe, cfg, state, module="MC_OptParse.tla", specdir=None, vacuit
             continue
         state["seen"].add(kb)
         todo.append(r)
-        texts.append(script_text(len(todo), b))
+        for p in range(NP):
+            texts.append(script_text((len(todo) - 1) * NP + p + 1, b, p))
     del raw
     jobs = min(4, int(os.environ.get("VERIF_JOBS", "4")))
     fails, recs, ns, nt = [], [], 0, 0
-    CH = 4000
+    CH = 4000 * NP
     for c0 in range(0, len(texts), CH):
         f_, r_, ns_, nt_ = run_scripts(exe, [tables], texts[c0:c0 + CH], ctx.rundir, jobs=jobs, env={"VH_WATCHDOG": "30"}, tag="opt")
         fails += f_
@@ -177,7 +194,7 @@ def run_cfg(ctx, exe, cfg, state, module="MC_OptParse.tla", specdir=None, vacuit
         state["hard"] = state.get("hard", 0) + nhard
         if state["hard"] > 400 and c0 + CH < len(texts):
             ctx.notes.append("%s: stopped after %d of %d behaviours: more than 400 crashes/hangs so far" % (cfg, c0 + CH, len(texts)))
-            todo = todo[:c0 + CH]
+            todo = todo[:(c0 + CH) // NP]
             texts = texts[:c0 + CH]
             state["stopped"] = True
             break
@@ -199,7 +216,7 @@ def run_cfg(ctx, exe, cfg, state, module="MC_OptParse.tla", specdir=None, vacuit
         if b["strict"] and "PRE" in b["st"] and (longest is None or len(b["argv"]) > len(longest["argv"]) or
                                                 (len(b["argv"]) == len(longest["argv"]) and k % 97 == 0)):
             longest = b
-        sid = k + 1
+        sid = k * NP + 1
         vs = []
         npass = 2 if "PRE" in b["st"] else 1
         nstrict += 1 if b["strict"] else 0
@@ -225,8 +242,33 @@ def run_cfg(ctx, exe, cfg, state, module="MC_OptParse.tla", specdir=None, vacuit
             for f in hard.get(sid, []):
                 if f.kind == "heap":
                     vs.append(("heap", "imbalance", "end", f.exp, f.got, ""))
+        vtext = texts[k * NP]
+        # the runs after an adversarial prelude must give exactly the fresh run's result (purity: needs no oracle, so
+        # it also covers the command lines outside the argument universe)
+        if not vs:
+            for p in range(1, NP):
+                sp = sid + p
+                pv = []
+                for f in hard.get(sp, []):
+                    if f.kind in ("crash", "hang", "exit", "inv", "heap"):
+                        d = f.sig if f.kind not in ("inv", "heap") else f.got
+                        pv.append(("stale-state", "after-%s:%s" % (PRELUDES[p], f.kind), "main", "as the fresh run", d, f.detail))
+                        break
+                if not pv:
+                    for pi in range(npass):
+                        a, g = by.get(sid, {}).get(pi), by.get(sp, {}).get(pi)
+                        if a != g:
+                            mm = compare(hdr, b, pi, untok(g)) if g is not None else []
+                            fld = mm[0][1] if mm else "result"
+                            pv.append(("stale-state", "after-%s:%s" % (PRELUDES[p], fld), "pre" if npass == 2 and pi == 0 else "main",
+                                       (a or "-")[:300], (g or "-")[:300], ""))
+                            break
+                if pv:
+                    vs += pv
+                    vtext = texts[k * NP + p]
+                    break
         if vs:
-            verdict[bkey(b)] = (vs, b, texts[k])
+            verdict[bkey(b)] = (vs, b, vtext)
     state["verdicts"].update(verdict)
     ctx.add("behaviours_strict", nstrict)
     ctx.add("passes_compared", npasses)
@@ -264,26 +306,70 @@ def long_vectors(ctx, exe, state):
     if "ArgvsSampled" not in cfg or "TokFull" not in cfg:
         raise Broken("cannot derive the sampled-vector cfg from OptParse_quick.cfg")
 
+    toktext = [list(w) for w in state["hdr"]["toktext"]]      # grows by the size-sweep tokens
+    nbase = len(toktext)
+
     def run_vectors(vs, tag):
         with open(os.path.join(d, "MC_OptParseLong.tla"), "w") as f:
-            f.write("---- MODULE MC_OptParseLong ----\nEXTENDS MC_OptParse\nSampled == {\n")
+            f.write("---- MODULE MC_OptParseLong ----\nEXTENDS MC_OptParse\n")
+            f.write("LongTokText == MCTokText \\o <<\n%s\n>>\n" % ",\n".join(
+                "<<%s>>" % ", ".join(str(c) for c in w) for w in toktext[nbase:]) if len(toktext) > nbase else "LongTokText == MCTokText\n")
+            f.write("Sampled == {\n")
             f.write(",\n".join("<<%s>>" % ", ".join(str(t) for t in v) for v in sorted(vs)))
             f.write("\n}\nArgvsSampled(t) == Sampled\n====\n")
         name = "OptParse_%s.cfg" % tag
         with open(os.path.join(d, name), "w") as f:
-            f.write(cfg)
+            f.write(cfg.replace("TokText <- MCTokText", "TokText <- LongTokText"))
         run_cfg(ctx, exe, name, state, module="MC_OptParseLong.tla", specdir=d, vacuity=False)
 
     run_vectors(vecs, "long")
     ctx.add("sampled_long_vectors", len(vecs))
+
+    # ---- size sweep: every spelling that has a size (words in a list, letters in a bundle, characters in a value, words
+    # on the line) at n-1, n, n+1 around the powers of two (and 127/128), in four position classes.  The tokens are
+    # outside the static alphabet: they are appended to the alphabet of the generated module, so TLC computes the
+    # expectation of every one of these lines with the same actions.
+    def tk(txt):
+        w = [ord(c) for c in txt]
+        toktext.append(w)
+        return len(toktext)
+    base = {"".join(chr(c) for c in w): k + 1 for k, w in enumerate(toktext[:nbase])}
+    pw = [8, 16, 32, 64, 128] if ctx.tier == "quick" else [8, 16, 32, 64, 128, 256, 512, 1024]
+    pc = [8, 16, 32, 64, 128, 256, 512, 1024] if ctx.tier == "quick" else [8, 16, 32, 64, 128, 256, 512, 1024, 2048, 4096, 8192]
+    around = lambda ps: sorted({m for q in ps for m in (q - 1, q, q + 1)} | {126, 127})
+    sweep = set()
+
+    def contexts(t):
+        sweep.update([(t,), (t, base["x"]), (base["-ab"], t), (base["x"], t, base["7"])])
+    for m in around(pw):
+        words = [("'q %d'" % k if k % 5 == 4 else "w%d" % (k % 10)) for k in range(m)]
+        contexts(tk("--exec=" + " ".join(words)))                                   # ArgListEq: m words inside one argv word
+        cyc = [base["x"], base["7"], base["on"], base["-a"], base["--num"]]
+        for opt in ("-e", "--exec"):                                                # ArgListRest: m words on the line
+            sweep.add((base[opt],) + tuple(cyc[k % 5] for k in range(m)))
+            sweep.add((base["-ab"], base[opt]) + tuple(cyc[k % 5] for k in range(m)))
+        sweep.add(tuple(base["x"] if k % 3 else base["7"] for k in range(m)))         # m non-option words
+        sweep.add(tuple(base["x"] for k in range(m - 1)) + (base["-ab"],))
+        contexts(tk("-" + "".join("ab"[k % 2] for k in range(m))))                  # bundle of m known letters
+        contexts(tk("-" + "".join("abz"[k % 3] for k in range(m))))                 # ... with unknown letters in it
+    for m in around(pc):
+        val = "".join("abcdefghij"[k % 10] for k in range(m))
+        for spell in ("--file=%s", "-f%s", "-bf%s", "--theme=%s", "-t%s", "-e%s", "--zap%s", "%s"):
+            contexts(tk(spell % val))
+        t = tk(val)
+        sweep.update([(base["-f"], t), (base["--num"], base["7"], base["-bf"], t), (base["-t"], t, base["x"])])   # value in the next word
+        contexts(tk("--agony=" + "o" * m))                                          # X: over-long non-boolean word
+    run_vectors(sweep, "sizes")
+    ctx.add("size_sweep_vectors", len(sweep))
+    ctx.add("size_sweep_tokens", len(toktext) - nbase)
     # failing sampled vectors are reduced the same way as the others: their sub-vectors are explored too (TLC computes
     # the expectation of each), round by round, until every failing vector has all its one-word deletions explored
-    index = {tuple(w): k + 1 for k, w in enumerate(state["hdr"]["toktext"])}
+    index = {tuple(w): k + 1 for k, w in enumerate(toktext)}
     for rnd_no in range(hi):
         cands = set()
         for key in list(state["verdicts"]):
             (tbn, st, av) = key
-            if len(av) <= 1 or all(minimise(state["verdicts"], key, v) != key for v in state["verdicts"][key][0]):
+            if len(av) <= 1 or len(av) > 10 or all(minimise(state["verdicts"], key, v) != key for v in state["verdicts"][key][0]):
                 continue        # already explained by a shorter explored vector
             for k in range(len(av)):
                 sub = av[:k] + av[k + 1:]
@@ -306,7 +392,7 @@ def minimise(verdicts, key, v):
     import itertools
     tbn, st, av = key
     n = len(av)
-    for ln in range(0, n):
+    for ln in range(0, n if n <= 10 else 3):
         for idx in itertools.combinations(range(n), ln):
             cand = (tbn, st, tuple(av[k] for k in idx))
             if has_mismatch(verdicts, cand, v):
@@ -331,7 +417,7 @@ def run(ctx):
         for v in verdicts[key][0]:
             m = minimise(verdicts, key, v)
             (_vs, b, _t) = verdicts[m]
-            argv_s = "[%s]" % ",".join(text(w).replace(" ", "_") for w in b["argv"])
+            argv_s = show_argv(b["argv"])
             fkey = "%s:%s pass=%s tb=%d argv=%s" % (v[0], v[1], v[2], b["tb"], argv_s)
             d = byf.setdefault(fkey, {})
             d[m] = d.get(m, 0) + 1
@@ -340,7 +426,7 @@ def run(ctx):
         (vs, b, txt) = verdicts[ms[0]]
         v = [x for x in vs if fkey.startswith("%s:%s pass=%s " % (x[0], x[1], x[2]))][0]
         kind, field, pas, exp, got, detail = v
-        argv_s = "[%s]" % ",".join(text(w).replace(" ", "_") for w in b["argv"])
+        argv_s = show_argv(b["argv"])
         sts = ["{%s}" % ",".join(sorted(verdicts[m][1]["st"])) for m in ms]
         what = "table %d argv %s settings %s: %s %s in the %s pass: expected %s, got %s (%d explored vectors reduce to this) %s" % (
             b["tb"], argv_s, " ".join(sts), kind, field, pas, exp, got, sum(byf[fkey].values()), detail[:700])
